@@ -48,6 +48,15 @@ def _hms(c, dec):
     return ('%d:%02d:%02d.%02d' % (h, m, r // 100, r % 100)) if dec == 2 else ('%d:%02d:%02d.%d' % (h, m, r // 100, (r % 100) // 10))
 
 
+def _short(c, clock=False):
+    """The mark as a person writes it: no more decimals than needed (95.2, 95.19, 95), as m:ss[.d[d]] when `clock`."""
+    whole, frac = divmod(c, 100)
+    dec = '' if not frac else ('.%d' % (frac // 10) if frac % 10 == 0 else '.%02d' % frac)
+    if clock and whole >= 60:
+        return '%d:%02d%s' % (whole // 60, whole % 60, dec)
+    return '%d%s' % (whole, dec)
+
+
 def _dot2(c):
     return _mss2(c).replace(':', '.')       # Norwegian m.ss.hh
 
@@ -97,7 +106,9 @@ def context(case):
         key = case['table']
         g, e = key[3], key[4:]
         score = mod('bulgarian_score').score
-        return (lambda c: call(score, 'U16', g, e, centi_float(c))), e in junior.BG_TIMED, 0, 150
+        form = case.get('form', 'float')
+        conv = {'float': centi_float, 'text2': fmt2, 'short': _short, 'mss-short': lambda c: _short(c, True)}[form]
+        return (lambda c: call(score, 'U16', g, e, conv(c))), e in junior.BG_TIMED, 0, 150
     raise ValueError(s)
 
 
@@ -390,6 +401,13 @@ def shard(ctx, payload):
         t = junior.bulgarian_tables()[key]
         a, b = sorted((t['min'], t['max']))
         ctx.violations(examine({'system': 'bulgarian', 'table': key, 'lo': max(0, a - 150), 'hi': b + 150}, ctx))
+        # the mark written as text the way people write it (no more decimals than needed; clock form from one minute up)
+        forms = ['text2', 'short'] + (['mss-short'] if key[4:] in junior.BG_TIMED and b + 150 >= 6000 else [])
+        for form in forms:
+            r0 = call(mod('bulgarian_score').score, 'U16', key[3], key[4:], fmt2((a + b) // 2))
+            if r0[0] == 'ret':       # the system takes text marks for this table: the same sweep in that spelling
+                ctx.violations(examine({'system': 'bulgarian', 'table': key, 'form': form, 'lo': max(0, a - 50), 'hi': b + 50}, ctx))
+                ctx.label('bulgarian-text-forms')
         far = FAR if key[4:] not in junior.BG_TIMED else 2 * (b + 150)
         ctx.violations(examine({'system': 'bulgarian', 'table': key, 'lo': b + 150, 'hi': far}, ctx))
         ctx.label('far-range-field-sweeps')
